@@ -18,6 +18,7 @@ from verifkit.core import *
 NS = "Cog.Sem.Defaults."
 THEOREMS = [NS + t for t in [
     "C10_go_partial", "C10_py_partial", "C10_agree_partial",
+    "C10_py_independent_partial", "C10_constant_disjunction_declares", "cdd_order_irrelevant",
     "go_field_holds", "py_field_holds",
     "C10_jsonNumber_default_breaks", "C10_witness_verdicts",
     "C10_counterexample_list_of_ints", "C10_counterexample_list_of_json_numbers",
@@ -27,7 +28,6 @@ THEOREMS = [NS + t for t in [
     "C10_counterexample_python_enum_ref_override_ignored",
 ]]
 FILES = HARNESS_BASE + ["lab_*.go", "src_*.go", "c10_*.go"]
-PROPOSED = os.path.join(WORK, "proposed_findings_C10.json")
 STATS = collections.Counter()
 
 
@@ -78,22 +78,13 @@ def classify(r):
     return v[:200]
 
 
-def load_proposed(c):
-    """until the coordinator merges them: proposed entries count as known findings"""
-    if os.path.exists(PROPOSED):
-        have = {f["id"] for f in c.known}
-        for f in json.load(open(PROPOSED)).get("findings", []):
-            if f.get("property") == c.pid and f["id"] not in have:
-                c.known.append(f)
-
-
-def stream_rows(hb, **kw):
+def stream_rows(hb, stream="c10-rows", **kw):
     """the lab shares the Go build cache and the machine with other checks: retry a run that died of
     an environmental error (cache entry trimmed under the linker, …)"""
     last = None
     for attempt in range(3):
         try:
-            return harness(hb, "c10-rows", **kw)
+            return harness(hb, stream, **kw)
         except RuntimeError as e:
             last = e
             log("c10-rows failed (attempt %d): %s" % (attempt + 1, str(e)[-400:]))
@@ -120,7 +111,7 @@ def run_rows(c, hb, stream, rows, **kw):
         if cls in reported or len(reported) >= 6:
             continue
         reported.add(cls)
-        c.violation({"kind": "oracle-failure", "stream": "c10-rows", "args": kw, "request": r[0], "impl": r[1], "oracle": r[2], "class": cls})
+        c.violation({"kind": "oracle-failure", "stream": stream, "args": kw, "request": r[0], "impl": r[1], "oracle": r[2], "class": cls})
 
 
 def fits_census(c, rows):
@@ -168,7 +159,6 @@ def fits_census(c, rows):
 
 def main():
     c = Check("C10")
-    load_proposed(c)
     c.trusted = [
         "Lean 4.33 kernel; axioms per theorem in obligation_list",
         "PROVED (all schemas/objects/fields/fuel): a field of the post-chain IR whose default fits (goFits/pyFits: decidable conditions on field type x dynamic type of the default) holds its declared default/constant in the constructor's JSON, Go and Python, and the two agree; NOT modelled: the front-ends (how `default`/`*v` becomes Type.Default) — the IR comes from the real front-ends and chains in the lab; defaults they drop are found by the source-side oracle only",
@@ -209,14 +199,17 @@ def main():
             print(json.dumps({k: rp[k] for k in rp if k in ("kind", "request", "impl", "model", "oracle", "class", "args", "broken")}, indent=1)[:3000])
             args = dict(rp.get("args") or {})
             args["tier"] = "replay"
-            rows = harness(hb, "c10-rows", **args)
+            rows = harness(hb, "c10-passes" if rp.get("stream") == "c10-passes" else "c10-rows", **args)
             want = rp.get("request", "")
         case = want.split(" ")[1].split(".")[0] if len(want.split(" ")) > 1 else ""
         bad = 0
         for r in rows:
             if r[0].startswith("defschemas"):
                 continue
-            if want:
+            if want and rp.get("stream") == "c10-passes":
+                if r[0] != want:
+                    continue
+            elif want:
                 mine = (r[0] == "-" and (" %s " % case) in (r[1] + " ")) or (r[0] != "-" and r[0].split(" ")[1:2] == want.split(" ")[1:2])
                 if not mine:
                     continue
@@ -232,6 +225,11 @@ def main():
     run_rows(c, hb, "c10-pinned", rows, pinned=1)
     census += fits_census(c, rows)
     all_rows += rows
+    # 1b. the configured pass that declares defaults (`"auto" | string`), on generated disjunctions:
+    #     the real pass vs its Lean model vs its contract (no lab needed)
+    a = dict(n=400 if quick else 4000, seed=c.seed)
+    rows = stream_rows(hb, stream="c10-passes", **a)
+    run_rows(c, hb, "c10-passes", rows, **a)
     # 2. generated terms (defaults of every value type, three formats)
     plan = [dict(n=48, seed=c.seed)] if quick else [dict(n=200, seed=c.seed + i) for i in range(3)]
     for a in plan:
